@@ -114,7 +114,7 @@ def run(ck):
 
         def one(api, desc, fn, value, wants):
             out, tgs = call(loop, xknx, fn)
-            recs.append({"t": "send", "api": api, "vkind": vkind_for(value, wants), "out": out, "queued": len(tgs), "wire": [wire(t) for t in tgs]})
+            recs.append({"t": "send", "api": api, "vkind": vkind_for(value, wants), "out": out, "queued": len(tgs), "wire": [wire(t) for t in tgs], "must": 0})
             ex.append(f"{desc}({value!r:.60})")
 
         pool = NUMBERS + TEXTS + FOREIGN + LISTS
@@ -208,6 +208,57 @@ def run(ck):
     finally:
         loop.close()
         asyncio.set_event_loop(None)
+    # ---- D. expose sensors with a cooldown: the second value given inside the cooldown is converted at once and sent when the cooldown ends
+    from ..fx import make_xknx, start_xknx, stop_xknx
+    from ..vloop import virtual_world
+
+    with virtual_world(ck.seed) as vl:
+        async def cooled():
+            xk, sent = make_xknx(vl)
+            await start_xknx(xk)
+            k = 0
+            for t in numeric_types if ck.tier != "quick" else numeric_types[::3] + ["percentU8", "pulse", "percent", "temperature", "1byte_signed"]:
+                try:
+                    c_ = DPTBase.get_dpt(t)
+                except Exception:  # noqa: BLE001
+                    continue
+                base = 1 if c_.value_min <= 1 <= c_.value_max else c_.value_min
+                vals = [c_.value_min, c_.value_max, c_.value_max + 0.6, c_.value_min - 0.6, c_.value_max + 1, c_.value_min - 1, c_.value_max + 0.4, 7, 7.6, float("inf"), float("nan"), None, "x"]
+                for v in vals:
+                    k += 1
+                    es = ExposeSensor(xk, f"cool{k}", group_address=f"3/{k // 250}/{k % 250}", value_type=t, cooldown=10)
+                    xk.devices.async_add(es)
+                    try:
+                        await es.set(base)
+                    except Exception:  # noqa: BLE001
+                        continue
+                    await xk.telegrams.join()
+                    n0 = len(sent)
+                    from xknx.exceptions import ConversionError  # noqa: PLC0415
+                    try:
+                        await es.set(v)
+                        out = "accepted"
+                    except ConversionError:
+                        out = "conv"
+                    except (TypeError, ValueError, AttributeError):
+                        out = "type"
+                    except Exception as ex_:  # noqa: BLE001
+                        out = "other:" + type(ex_).__name__
+                    await asyncio.sleep(11)
+                    await xk.telegrams.join()
+                    new = sent[n0:]
+                    must = 0
+                    if out == "accepted" and isinstance(v, (int, float)) and not isinstance(v, bool):
+                        try:
+                            must = 1 if c_.to_knx(v) != c_.to_knx(base) else 0
+                        except Exception:  # noqa: BLE001
+                            must = 1
+                    recs.append({"t": "send", "api": "expose_cooldown", "vkind": vkind_for(v, {"int", "float"}), "out": out, "queued": len(new), "wire": ["ok"] * len(new), "must": must})
+                    ex.append(f"ExposeSensor({t}, cooldown=10).set({base}) then, inside the cooldown, set({v!r:.40})")
+                    xk.devices.async_remove(es)
+            await stop_xknx(xk)
+
+        vl.run_until_complete(cooled())
     # ---- judge
     agg = {}
     for r, e in zip(recs, ex):
